@@ -4,10 +4,12 @@
 // prints, per case, `<abstract conversations and packet list> TAB <what fq reports>`:
 //
 //	fq <format> B=<facts> [S [K <ip> <port> <skipped> <start> <end> <stream> <ip> <port> <skipped> <start> <end> <stream>]* [R <datagram>]*]*
-//	   T=<same|diff…> X [<conn>.<c|s>.<start><end>.<skip>.<data> | flush | N]*
+//	   T=<same|diff…> X [A<conn>.<c|s>.<flags>.<seq>.<nextSeq>.<accepted><start>.<payload> | <conn>.<c|s>.<start><end>.<skip>.<data> | flush | N]*
 //
 // S = one section as fq reports it, K = one tcp_connection (client fields then server fields, in fq's order),
-// R = one entry of ipv4_reassembled, X = the calls gopacket's assembler made into fq's ReassembledSG on the same
+// R = one entry of ipv4_reassembled, X = the packets handed to gopacket's assembler (A…: one per
+// AssembleWithContext call, recorded in Accept: flags SFRA, sequence number, the half's nextSeq, Accept's answer
+// and *start afterwards, payload) interleaved with the calls the assembler made into fq's ReassembledSG on the same
 // packets (traced Decoder, one per section: `flush` marks the Flush at the section's end, `N` the next section),
 // T = whether the traced Decoders ended in the state fq reported, B = `-` or, for pcapng, per file section
 // <length of the section header block>:<length of the section's last block>.
@@ -148,6 +150,20 @@ func observe(k *kase, fr fqResult) string {
 		d := "c"
 		if c.ServerToClient {
 			d = "s"
+		}
+		if c.Input {
+			// the INPUT side: A<conn>.<c|s>.<flags>.<seq>.<nextSeq>.<accepted><start after Accept>.<payload>
+			fl := ""
+			for i, b := range []bool{c.SYN, c.FIN, c.RST, c.ACK} {
+				if b {
+					fl += "SFRA"[i : i+1]
+				}
+			}
+			if fl == "" {
+				fl = "-"
+			}
+			fmt.Fprintf(&sb, " A%d.%s.%s.%d.%d.%s%s.%s", c.Conn, d, fl, c.Seq, c.NextSeq, b01(c.Accepted), b01(c.StartAfter), traceData(k, c.Data))
+			continue
 		}
 		fmt.Fprintf(&sb, " %d.%s.%s%s.%d.%s", c.Conn, d, b01(c.Start), b01(c.End), c.Skip, traceData(k, c.Data))
 	}
